@@ -117,7 +117,7 @@ def main(argv):
     if a.replay:
         return mod.replay_file(a.replay)
     scratch = engine.Scratch(prop)
-    logdir = os.path.join(VERIF, "logs", prop)
+    logdir = os.path.join(VERIF, "logs", prop + os.environ.get("VERIF_LOG_SUFFIX", ""))
     shutil.rmtree(logdir, ignore_errors=True)
     os.makedirs(logdir, exist_ok=True)
     out = Outcome()
@@ -281,6 +281,7 @@ def write_evidence(prop, tier, seed, mod, suites, out, confirmed, wall, build_se
         "wall_s": round(wall, 1),
         "violations": len(confirmed),
     }
-    os.makedirs(os.path.join(VERIF, "evidence"), exist_ok=True)
-    with open(os.path.join(VERIF, "evidence", prop + ".json"), "w") as f:
+    evdir = os.environ.get("VERIF_EVIDENCE_DIR") or os.path.join(VERIF, "evidence")
+    os.makedirs(evdir, exist_ok=True)
+    with open(os.path.join(evdir, prop + ".json"), "w") as f:
         json.dump(ev, f, indent=1)
